@@ -15,7 +15,7 @@ import (
 func init() {
 	register(&Prop{
 		ID:          "C19",
-		Explanation: "Enumerates every source of a run-time panic the analysis can name in code reachable from ServeHTTP (VTA call graph) and requires each to be discharged: explicit panic statements and single-value type assertions (reviewed table, one construct one reason), index/slice expressions whose bounds check the Go compiler's prove pass could not eliminate (compiler IR residue mapped to function+expression; discharged by a dominating length guard found on every path or by the reviewed table), Must* calls with dynamic arguments (discharged when the argument is a constant template over regexp.QuoteMeta), dereferences of the nullable SessionState timestamps (non-nil fact by nil test, setter or fresh address on every path, or at every call site; includes passing them to helpers that dereference unguarded), and pointers filled by JSON/claims decoders used without a nil test; plus scope presence (NewScope is the first pre-auth middleware, installed before any route) and agreement between the SameSite values validation accepts and ParseSameSite handles. Added during the build: P6 — in every module function, the pointer/interface result of a fallible call is dereferenced (directly, through one phi, or by a module callee that dereferences its parameter unguarded) only behind the err==nil edge of that call's error, a nil test of the error merged with it, or a non-nil test of the result; logger.Fatal*/os.Exit arms count as terminating. Round 3: integer divisions by non-constants and assignments into maps not made locally are scanned as P7/P8. Round 4: validateCookie judges cookie_samesite as configured — it does not rewrite the field of its own copy before comparing (under samesite-agreement). Round 5: a module function whose request-reachable caller dereferences the pointer result after checking only the error never returns (nil, nil) (P9). Round 6: every caller of getAuthenticatedSession dereferences the session only behind a non-nil test (P10); index loops over a decoded local are discharged automatically.",
+		Explanation: "Enumerates every source of a run-time panic the analysis can name in code reachable from ServeHTTP (VTA call graph) and requires each to be discharged: explicit panic statements and single-value type assertions (reviewed table, one construct one reason), index/slice expressions whose bounds check the Go compiler's prove pass could not eliminate (compiler IR residue mapped to function+expression; discharged by a dominating length guard found on every path or by the reviewed table), Must* calls with dynamic arguments (discharged when the argument is a constant template over regexp.QuoteMeta), dereferences of the nullable SessionState timestamps (non-nil fact by nil test, setter or fresh address on every path, or at every call site; includes passing them to helpers that dereference unguarded), and pointers filled by JSON/claims decoders used without a nil test; plus scope presence (NewScope is the first pre-auth middleware, installed before any route) and agreement between the SameSite values validation accepts and ParseSameSite handles. Added during the build: P6 — in every module function, the pointer/interface result of a fallible call is dereferenced (directly, through one phi, or by a module callee that dereferences its parameter unguarded) only behind the err==nil edge of that call's error, a nil test of the error merged with it, or a non-nil test of the result; logger.Fatal*/os.Exit arms count as terminating. Round 3: integer divisions by non-constants and assignments into maps not made locally are scanned as P7/P8. Round 4: validateCookie judges cookie_samesite as configured — it does not rewrite the field of its own copy before comparing (under samesite-agreement). Round 5: a module function whose request-reachable caller dereferences the pointer result after checking only the error never returns (nil, nil) (P9). Round 6: every caller of getAuthenticatedSession dereferences the session only behind a non-nil test (P10); index loops over a decoded local are discharged automatically. Round 7: P11 — a nilable value (pointer, interface, map, func) read from a map with the single-value form and never compared with nil is a site (zero today).",
 		NotDecided:  "panics inside third-party libraries on hostile bytes (msgpack, lz4, go-oidc, gorilla); nil-map writes, integer division, channel misuse and resource exhaustion; bounds checks inside inlined standard-library code are attributed to the trusted library.",
 		Run:         runC19,
 	})
